@@ -66,7 +66,8 @@ pub fn shrink_world_case(case: &Value) -> Vec<Value> {
 // ------------------------------------------------------------------ C03
 
 pub struct C03;
-const C03_CLASSES: [&str; 12] = [
+const C03_CLASSES: [&str; 13] = [
+    "closing-signature-not-on-ledger-state",
     "faulty-reply-accepted",
     "refused-reply-changed-state",
     "honest-reply-refused",
@@ -217,7 +218,8 @@ impl Prop for C03 {
 // ------------------------------------------------------------------ C04
 
 pub struct C04;
-pub const C04_CLASSES: [&str; 18] = [
+pub const C04_CLASSES: [&str; 19] = [
+    "closing-signature-not-on-ledger-state",
     "honest-establish-refused",
     "honest-payment-refused",
     "honest-reply-refused",
@@ -379,6 +381,7 @@ impl Prop for C05 {
             };
             v.push(case_of(&plan, json!({})));
         }
+        v.push(json!({"f": "pair-codec", "seed": seed}));
         CaseSet {
             enumerated: v,
             random: match tier {
@@ -389,6 +392,9 @@ impl Prop for C05 {
         }
     }
     fn random_case(&self, _tier: Tier, seed: u64, idx: usize) -> Value {
+        if idx % 12 == 11 {
+            return json!({"f": "pair-codec", "seed": mix(&[seed, 0xC05C, idx as u64])});
+        }
         let mut p = Profile::byzantine();
         p.reply_fault = (0, 1);
         p.lock_fault = (70, 100);
@@ -402,6 +408,10 @@ impl Prop for C05 {
     }
     fn run(&self, case: &Value) -> Outcome {
         let mut o = Outcome::default();
+        if case["f"] == "pair-codec" {
+            pair_codec(&mut o, case["seed"].as_u64().unwrap_or(0));
+            return o;
+        }
         let plan = plan_of(case);
         let _ = run_plan(&plan, &mut o);
         keep(&mut o, &C05_CLASSES);
@@ -409,10 +419,13 @@ impl Prop for C05 {
         o
     }
     fn shrink(&self, case: &Value) -> Vec<Value> {
+        if case["f"] == "pair-codec" {
+            return Vec::new();
+        }
         shrink_world_case(case)
     }
     fn rule(&self) -> String {
-        "one case = one plan in which every accepted pay proof is followed, before the right (pair, blinding factor), by 0-6 wrong candidates carried to the merchant's pending payment: the new state's pair (read from the customer's stage image), a fresh pair, a pair recorded from another payment / channel, the right pair with a random / off-by-one / foreign blinding factor, and pair encodings with lock, secret or index altered (which the decoder must refuse). Distinct = distinct executed event/outcome sequence; non-trivial = at least one wrong candidate was presented".into()
+        "two case families. pair-codec: revocation pairs whose SHA3 digest lies in chosen bands (found by a seeded brute-force search over ~10^6 secrets: just above the group order q, just below q, near 2^256, any value >= q) are presented to the decoder as (digest mod q, secret, index) and as (raw digest, secret, index), and their secrets are fed to pair generation through a crafted entropy stream; every pair that decodes or is generated must satisfy lock = SHA3(secret || index) as a canonical scalar, and canonical ones must decode. world: one case = one plan in which every accepted pay proof is followed, before the right (pair, blinding factor), by 0-6 wrong candidates carried to the merchant's pending payment: the new state's pair (read from the customer's stage image), a fresh pair, a pair recorded from another payment / channel, the right pair with a random / off-by-one / foreign blinding factor, and pair encodings with lock, secret or index altered (which the decoder must refuse). Distinct = distinct executed event/outcome sequence; non-trivial = at least one wrong candidate was presented".into()
     }
     fn assumptions(&self) -> Vec<String> {
         vec!["SHA3-256(secret || index) is recomputed by the harness for every pair seen in a lock message or accepted by the decoder".into()]
@@ -428,9 +441,132 @@ impl Prop for C05 {
             "probe.corrupt_pair_refused_by_decoder",
             "probe.right_revocation_after_3_wrong",
             "probe.payment_completed",
+            "probe.band_just_above_q_refused",
+            "probe.band_just_below_q_accepted",
+            "probe.crafted_generation_checked",
         ]
     }
 }
+
+/// Secrets (canonical scalars, index 0) whose SHA3-256(secret || 0) falls into a band of interest.
+/// band 0: any digest >= q; 1: just above q (same top 16 bits as q); 2: top 16 bits 0xffff;
+/// 3: canonical, just below q (same top 16 bits as q).
+fn banded_secrets() -> &'static Vec<(u8, [u8; 32], [u8; 32])> {
+    static C: std::sync::OnceLock<Vec<(u8, [u8; 32], [u8; 32])>> = std::sync::OnceLock::new();
+    C.get_or_init(|| {
+        use sha3::{Digest, Sha3_256};
+        let q = refc::bad::scalar_q();
+        let ge_q = |d: &[u8]| -> bool {
+            for i in (0..32).rev() {
+                if d[i] != q[i] {
+                    return d[i] > q[i];
+                }
+            }
+            true
+        };
+        let mut out: Vec<(u8, [u8; 32], [u8; 32])> = Vec::new();
+        let mut have = [0usize; 4];
+        let want = [2usize, 3, 2, 3];
+        let mut k: u64 = 1;
+        while (0..4).any(|b| have[b] < want[b]) && k < 6_000_000 {
+            let secret = Scalar::from(k).to_bytes();
+            let d = Sha3_256::new().chain(secret).chain([0u8]).finalize();
+            let mut db = [0u8; 32];
+            db.copy_from_slice(d.as_ref());
+            let top = (db[31], db[30]);
+            let band = if top == (q[31], q[30]) {
+                if ge_q(&db) {
+                    Some(1)
+                } else {
+                    Some(3)
+                }
+            } else if top == (0xff, 0xff) {
+                Some(2)
+            } else if ge_q(&db) && have[0] < want[0] {
+                Some(0)
+            } else {
+                None
+            };
+            if let Some(b) = band {
+                if have[b] < want[b] {
+                    have[b] += 1;
+                    out.push((b as u8, secret, db));
+                }
+            }
+            k += 1;
+        }
+        out
+    })
+}
+
+fn pair_codec(o: &mut Outcome, seed: u64) {
+    use crate::rng::{EntropyFault, SimRng};
+    let bands = banded_secrets();
+    if !(0..4u8).all(|b| bands.iter().any(|x| x.0 == b)) {
+        crate::harness_error("C05: the digest-band search did not find a secret for every band");
+    }
+    for (band, secret, digest) in bands.iter() {
+        let reduced = refc::scb(&refc::sc_raw(digest));
+        let canonical = refc::sc_opt(digest).is_some();
+        // (a) decode (digest mod q | raw digest, secret, 0)
+        for (form, lock) in [("reduced", reduced), ("raw", *digest)] {
+            let mut b = lock.to_vec();
+            b.extend_from_slice(secret);
+            b.push(0);
+            o.events += 1;
+            o.bump("fault.lock.crafted-digest-band");
+            match bincode::deserialize::<za_pair::RevocationPair>(&b) {
+                Ok(p) => {
+                    let s = p.revocation_secret().as_bytes();
+                    let ok = refc::rev_lock(&s[..32], s[32]).map(|l| refc::scb(&l) == p.revocation_lock().as_bytes()).unwrap_or(false);
+                    if !ok {
+                        o.violate(
+                            "decoded-pair-not-hash-pair",
+                            "RevocationPair",
+                            format!("a pair whose digest is in band {} ({} lock form) decodes although its lock is not the canonical-scalar SHA3 hash of its secret", band, form),
+                        );
+                    } else if *band == 3 {
+                        o.bump("probe.band_just_below_q_accepted");
+                    }
+                }
+                Err(_) => {
+                    if canonical && form == "raw" {
+                        o.violate("valid-pair-refused", "RevocationPair", format!("a pair with a canonical digest just below q (band {}) is refused by the decoder", band));
+                    }
+                    if *band == 1 {
+                        o.bump("probe.band_just_above_q_refused");
+                    }
+                }
+            }
+        }
+        // (b) generation from a crafted entropy stream that yields exactly this secret
+        let mut wide = secret.to_vec();
+        wide.extend_from_slice(&[0u8; 32]);
+        let mut f = std::collections::BTreeMap::new();
+        f.insert(0usize, EntropyFault::Bytes(wide));
+        let mut rng = SimRng::with_faults(seed, "c05/crafted-secret", f);
+        let pair = zkabacus_crypto::internal::test_new_revocation_pair(&mut rng);
+        o.events += 1;
+        o.bump("fault.entropy.crafted-revocation-secret");
+        let s = pair.revocation_secret().as_bytes();
+        if s[..32] != secret[..] {
+            crate::harness_error("C05: the crafted entropy stream did not produce the intended secret");
+        }
+        let ok = refc::rev_lock(&s[..32], s[32]).map(|l| refc::scb(&l) == pair.revocation_lock().as_bytes()).unwrap_or(false);
+        if !ok {
+            o.violate("generated-pair-not-hash-pair", "RevocationPair::new", format!("pair generation from a secret whose index-0 digest is in band {} returns a lock that is not the canonical-scalar SHA3 hash of (secret, index {})", band, s[32]));
+        }
+        if bincode::deserialize::<za_pair::RevocationPair>(&crate::atoms::encode(&pair)).is_err() {
+            o.violate("generated-pair-rejected-by-decoder", "RevocationPair::new", format!("a generated pair (band {}) does not decode", band));
+        }
+        o.bump("probe.crafted_generation_checked");
+    }
+    o.nontrivial = true;
+    o.shape = mix(&[0xC05C, seed]);
+    o.log_hash = mix(&[o.shape, o.events, o.violations.len() as u64]);
+}
+
+use zkabacus_crypto::revlock as za_pair;
 
 // ------------------------------------------------------------------ C14
 
